@@ -222,7 +222,7 @@ def part_expr(o: Outcome, thorough: bool):
                                 "error_predicted": sum(1 for c in scases if c["exp"]["kind"] == "err")}
     if scases:
         o.sample({"sampled_expr": " ".join(max(scases, key=lambda c: len(c["min"]))["min"][:60])})
-    allev = sevents + events[: (40000 if thorough else 4000)]
+    allev = sevents + events[: (10000 if thorough else 4000)]
     bad, drift, excerr = validate_expr_trace(o, allev)
     o.traces += len(allev)
     seen = 0
